@@ -267,16 +267,16 @@ def checkCase (j : Json) : Except String Verdict := do
           else
             if s.slug != slug then
               v := v.mon "C01" "wrong_provider_session_served" idx s.slug (if s.slug == defaultSlug && u.slug != "" then "provider-slug-ignored" else "")
-            if s.host != host then v := v.mon "C13" "cross_host_session_accepted" idx
-            if s.lifetime < 0 then v := v.mon "C04" "served_after_lifetime" idx
+            if s.host != host then v := v.mons ["C13", "C01"] "cross_host_session_accepted" idx
+            if s.lifetime < 0 then v := v.mons ["C04", "C01"] "served_after_lifetime" idx
             if s.refresh < 0 then
               match refreshWhy P 0 s a with
-              | none => v := v.mon "C04" "due_refresh_not_confirmed" idx
+              | none => v := v.mons ["C04", "C01", "C05"] "due_refresh_not_confirmed" idx
               | some .grace => if !((strs out "calls").contains "refresh") then v := v.mon "C05" "grace_without_call" idx
               | some .confirmed => if !((strs out "calls").contains "refresh") then v := v.mon "C04" "served_without_refresh_call" idx
             else if s.valid < 0 then
               match validateWhy P 0 s a with
-              | none => v := v.mon "C04" "due_validation_not_confirmed" idx
+              | none => v := v.mons ["C04", "C01", "C05"] "due_validation_not_confirmed" idx
               | some .grace =>
                 -- C05: grace only within the window counted from the first failure
                 let g := s.grace.getD 0
@@ -285,7 +285,7 @@ def checkCase (j : Json) : Except String Verdict := do
             -- C11: the user satisfies at least one allow rule (group rule: per the session's confirmed groups)
             let grp : GroupAns := if u.groups == ["*"] || u.groups.any (s.groups.contains ·) then .member else .notMember
             if !specAdmit lower u.rules s.email grp && !(u.rules.groups != [] && s.refresh ≥ 0 && s.valid ≥ 0) then
-              v := v.mon "C11" "served_without_any_rule" idx
+              v := v.mons ["C11", "C01"] "served_without_any_rule" idx
         | none, k => v := v.mon "C01" "upstream_without_session" idx k
       -- C11 (stability): a fresh, otherwise valid session of a user who satisfies a rule must be served, as at login
       if !reached && !whitel && handlerOf (strD ora "escapedPath") == "Proxy" && status == 403 then
@@ -315,6 +315,10 @@ def checkCase (j : Json) : Except String Verdict := do
             | some s =>
               if ns.lifetime != s.lifetime || ns.host != s.host || ns.email != s.email || ns.slug != s.slug || ns.user != s.user then
                 v := v.mon "C04" "check_changed_identity_or_lifetime" idx
+              -- C05: while failures continue the grace period keeps counting from the first failure
+              match s.grace, ns.grace with
+              | some g, some g' => if g' != g then v := v.mon "C05" "grace_start_moved" idx s!"{g} -> {g'}"
+              | _, _ => pure ()
             | none => v := v.mon "C01" "session_minted_without_login" idx
             match chainLifetime.find? (·.1 == host) with
             | some (_, lt) => if strD presented "kind" == "jar" && clock + ns.lifetime > lt then v := v.mon "C04" "lifetime_moved_later" idx
